@@ -288,7 +288,12 @@ def float_repr(text):
             raise Unsupported("repr of a float with more than 15 significant digits")
         return scientific(digits, len(ip) - 1)
     if len(ip) + len(fp) > 15 or len(ip) > 15:
-        raise Unsupported("repr of a float with more than 15 significant digits")
+        # many digits, but perhaps only few significant ones (1000000000000000.0)
+        digits = ip + ([] if frac_zero else fp)
+        while len(digits) > 1 and ctx.decide_b(ch_eq(digits[-1], "0")):
+            digits.pop()
+        if len(digits) > 15:
+            raise Unsupported("repr of a float with more than 15 significant digits")
     if int_zero and not frac_zero:
         lead = 0
         while lead < len(fp) and ctx.decide_b(ch_eq(fp[lead], "0")):
